@@ -268,6 +268,7 @@ func (r *Run) accessCheck(st *State, fr *Frame, a *Addr, write bool, in ssa.Inst
 		for _, lk := range gi.Locks {
 			if e.notifyOnChange(owner, lk) {
 				st.Facts["dirty:"+owner+"."+lk+":"+a.Ref.S] = e.posOf(in)
+				st.Facts["dirtyf:"+owner+"."+lk+":"+strings.TrimSuffix(field, "[]")+":"+a.Ref.S] = e.posOf(in)
 			}
 		}
 	}
@@ -813,8 +814,18 @@ func (r *Run) release(st *State, fr *Frame, lr LockRef, mode LockMode, in ssa.In
 		r.assertInvariants(st, fr, lr.Owner, lr.Field, lr.Base, in, "release")
 		if nw := e.notifyWhen(lr.Owner, lr.Field); len(nw) > 0 {
 			k := "dirty:" + lr.Class + ":" + lr.Base.S
-			_, dirty := st.Facts[k]
+			_, dirtyAny := st.Facts[k]
 			for _, cl := range nw {
+				// `notify-when L on f1 f2 label : cond` — only changes of the listed fields count
+				dirty := dirtyAny
+				if len(cl.Words) >= 4 && cl.Words[1] == "on" {
+					dirty = false
+					for _, f := range cl.Words[2 : len(cl.Words)-1] {
+						if _, ok := st.Facts["dirtyf:"+lr.Class+":"+f+":"+lr.Base.S]; ok {
+							dirty = true
+						}
+					}
+				}
 				goal := True
 				if dirty {
 					goal = Not(r.evalTypeClause(st, lr.Owner, lr.Base, cl))
@@ -824,6 +835,11 @@ func (r *Run) release(st *State, fr *Frame, lr LockRef, mode LockMode, in ssa.In
 					"state guarded by "+lr.Class+" changed (at "+st.Facts[k]+") leaving `"+cl.Expr+"` true, without a Broadcast before the release", e.posOf(in), cl.Props, cl)
 			}
 			delete(st.Facts, k)
+			for fk := range st.Facts {
+				if strings.HasPrefix(fk, "dirtyf:"+lr.Class+":") && strings.HasSuffix(fk, ":"+lr.Base.S) {
+					delete(st.Facts, fk)
+				}
+			}
 		} else if e.notifyOnChange(lr.Owner, lr.Field) {
 			k := "dirty:" + lr.Class + ":" + lr.Base.S
 			goal := True
